@@ -20,12 +20,23 @@ type scen struct {
 	n       int
 	pattern string
 	periods int
+	earlier int // interval of an earlier logon on the same connection (ended by a Logout exchange), 0 = none
 }
 
-func (s scen) String() string { return fmt.Sprintf("%s N=%d pattern=%s periods=%d", s.role, s.n, s.pattern, s.periods) }
+func (s scen) String() string {
+	d := fmt.Sprintf("%s N=%d pattern=%s periods=%d", s.role, s.n, s.pattern, s.periods)
+	if s.earlier != 0 {
+		d += fmt.Sprintf(" second-logon-on-the-connection(first interval %d)", s.earlier)
+	}
+	return d
+}
 
 func run(c *vk.Ctx, can *rig.Canary, sc scen, idx int) {
 	desc := sc.String()
+	pat := sc.pattern
+	if sc.earlier != 0 {
+		pat += fmt.Sprintf("@second-logon(first-interval-%d)", sc.earlier)
+	}
 	replay := map[string]interface{}{"scenario": desc, "index": idx, "seed": c.Seed}
 	N := time.Duration(sc.n) * time.Second
 	f, err := rig.StartFull(rig.FullCfg{Role: sc.role, HeartBtInt: sc.n, BufSize: 10, Notify: true, Label: fmt.Sprintf("c08-%d", idx)})
@@ -43,11 +54,26 @@ func run(c *vk.Ctx, can *rig.Canary, sc scen, idx int) {
 	} else {
 		l = f.Links[0]
 	}
-	if !l.Logon(sc.role, sc.n, 5*time.Second) {
+	first := sc.n
+	if sc.earlier != 0 && sc.role == rig.Acceptor {
+		first = sc.earlier // an initiator offers its configured interval at every logon
+	}
+	if !l.Logon(sc.role, first, 5*time.Second) {
 		c.Inconclusive("no logon: " + desc)
 		return
 	}
 	tLogged := time.Now()
+	if sc.earlier != 0 {
+		// the peer logs out and logs on again on the same connection; the observation starts at the second logon
+		time.Sleep(200 * time.Millisecond)
+		at, ok := l.Relogon(sc.role, sc.n, 5*time.Second)
+		if !ok {
+			c.Inconclusive("second logon did not complete: " + desc)
+			return
+		}
+		tLogged = at
+		c.Count("second_logons", 1)
+	}
 	// keep-alive: the peer sends a Heartbeat every 0.8 N so that the session is never disconnected
 	stop := make(chan struct{})
 	var wg sync.WaitGroup
@@ -69,7 +95,7 @@ func run(c *vk.Ctx, can *rig.Canary, sc scen, idx int) {
 	end := tLogged.Add(total)
 	lastOut := func() time.Time {
 		fr, _ := l.Frames()
-		if len(fr) == 0 {
+		if len(fr) == 0 || fr[len(fr)-1].T.Before(tLogged) {
 			return tLogged
 		}
 		return fr[len(fr)-1].T
@@ -157,6 +183,9 @@ func run(c *vk.Ctx, can *rig.Canary, sc scen, idx int) {
 	close(stop)
 	wg.Wait()
 	frames, _ := l.Frames()
+	if sc.earlier != 0 {
+		frames = rig.Since(frames, tLogged)
+	}
 	jit := can.Max()
 	if jit > 250*time.Millisecond {
 		c.Inconclusive(fmt.Sprintf("scheduler oversleep %v during %s", jit, desc))
@@ -168,6 +197,9 @@ func run(c *vk.Ctx, can *rig.Canary, sc scen, idx int) {
 	var maxGap, minHbGap time.Duration
 	minHbGap = time.Hour
 	prev := time.Time{}
+	if sc.earlier != 0 && sc.role == rig.Initiator {
+		prev = tLogged // an initiator sends nothing at its second logon: the period starts when the peer's Logon arrives
+	}
 	var lastGap time.Duration
 	for i, fr := range frames {
 		if fr.Type == "A" || prev.IsZero() {
@@ -181,7 +213,7 @@ func run(c *vk.Ctx, can *rig.Canary, sc scen, idx int) {
 			maxGap = gap
 		}
 		if gap > bound {
-			c.Violate(fmt.Sprintf("C08/silent-too-long/%s/N=%d/%s", sc.role, sc.n, sc.pattern), fmt.Sprintf("%s: %v passed between outbound message #%d and #%d (35=%s); bound N+N/10+slack = %v (measured scheduler oversleep %v)", desc, gap.Round(time.Millisecond), i-1, i, fr.Type, bound, jit), replay)
+			c.Violate(fmt.Sprintf("C08/silent-too-long/%s/N=%d/%s", sc.role, sc.n, pat), fmt.Sprintf("%s: %v passed between outbound message #%d and #%d (35=%s); bound N+N/10+slack = %v (measured scheduler oversleep %v)", desc, gap.Round(time.Millisecond), i-1, i, fr.Type, bound, jit), replay)
 		}
 		if fr.Type == "0" {
 			if _, solicited := fixref.Get(fr.Fields, rig.TTestReqID); !solicited {
@@ -207,7 +239,7 @@ func run(c *vk.Ctx, can *rig.Canary, sc scen, idx int) {
 					c.Count("heartbeats_concurrent_with_a_send(not judged)", 1)
 				}
 				if gap < N-20*time.Millisecond-3*jit && !concurrentWithSend {
-					c.Violate(fmt.Sprintf("C08/heartbeat-too-early/%s/N=%d/%s", sc.role, sc.n, sc.pattern), fmt.Sprintf("%s: unsolicited Heartbeat (#%d, 34=%s) only %v after the previous outbound message; N = %v; trace: %s", desc, i, fr.Seq, gap.Round(time.Millisecond), N, trace(frames, i)), replay)
+					c.Violate(fmt.Sprintf("C08/heartbeat-too-early/%s/N=%d/%s", sc.role, sc.n, pat), fmt.Sprintf("%s: unsolicited Heartbeat (#%d, 34=%s) only %v after the previous outbound message; N = %v; trace: %s", desc, i, fr.Seq, gap.Round(time.Millisecond), N, trace(frames, i)), replay)
 				}
 			}
 		}
@@ -215,7 +247,7 @@ func run(c *vk.Ctx, can *rig.Canary, sc scen, idx int) {
 	}
 	if !prev.IsZero() {
 		if gap := tEnd.Sub(prev); gap > bound {
-			c.Violate(fmt.Sprintf("C08/silent-too-long/%s/N=%d/%s", sc.role, sc.n, sc.pattern), fmt.Sprintf("%s: nothing was transmitted during the last %v of the observation; bound %v", desc, gap.Round(time.Millisecond), bound), replay)
+			c.Violate(fmt.Sprintf("C08/silent-too-long/%s/N=%d/%s", sc.role, sc.n, pat), fmt.Sprintf("%s: nothing was transmitted during the last %v of the observation; bound %v", desc, gap.Round(time.Millisecond), bound), replay)
 		}
 	}
 	c.Eval(vk.Hash64([]byte(desc)), hb > 0)
@@ -232,8 +264,8 @@ func run(c *vk.Ctx, can *rig.Canary, sc scen, idx int) {
 
 func main() {
 	c := vk.Init("C08")
-	c.Rule("full-stack sessions, both roles, negotiated N in {1,2,3} (quick) + {5,20} (thorough); the peer keeps the session alive with a Heartbeat every 0.8 N; application send patterns relative to the previous outbound message: none (idle for many periods), one send N-0.15 s / N / N+0.15 s / N/2 after it, bursts of 20 followed by 2.3 N of idleness, two sends 0.09 N apart followed by 1.6 N of idleness, a retransmission requested by the peer N/2 after it, an application send through the handler (own header) N/2 after it. Oracle on write timestamps at the peer end: every gap between consecutive outbound messages (and up to the end of the observation) <= N + N/10 + slack, slack = 100 ms + 3 x measured scheduler oversleep; every Heartbeat without TestReqID follows the previous outbound message by >= N - 20 ms. distinct = (role, N, pattern); non-trivial = at least one unsolicited Heartbeat observed")
-	c.Assume("single-logon histories; a run whose canary measured more than 250 ms oversleep is inconclusive")
+	c.Rule("full-stack sessions, both roles, negotiated N in {1,2,3} (quick) + {5,20} (thorough); the peer keeps the session alive with a Heartbeat every 0.8 N; application send patterns relative to the previous outbound message: none (idle for many periods), one send N-0.15 s / N / N+0.15 s / N/2 after it, bursts of 20 followed by 2.3 N of idleness, two sends 0.09 N apart followed by 1.6 N of idleness, a retransmission requested by the peer N/2 after it, an application send through the handler (own header) N/2 after it; plus sessions that log on a second time on the same connection after a Logout exchange (acceptor: first interval 3 then 1, 1 then 2, 2 then 2; initiator: same interval), observed from the second logon with the patterns idle / N+0.15 s / N/2. Oracle on write timestamps at the peer end: every gap between consecutive outbound messages (and up to the end of the observation) <= N + N/10 + slack, slack = 100 ms + 3 x measured scheduler oversleep; every Heartbeat without TestReqID follows the previous outbound message by >= N - 20 ms. distinct = (role, N, pattern); non-trivial = at least one unsolicited Heartbeat observed")
+	c.Assume("a run whose canary measured more than 250 ms oversleep is inconclusive")
 	can := rig.StartCanary()
 	defer can.Stop()
 	ns := []int{1, 2, 3}
@@ -246,7 +278,18 @@ func main() {
 	for _, role := range []rig.Role{rig.Acceptor, rig.Initiator} {
 		for _, n := range ns {
 			for _, p := range []string{"idle", "send-just-before", "send-at-deadline", "send-just-after", "bursts-then-idle", "half-period-sends", "pair-just-under-a-tenth-apart", "resend-replay-mid-period", "handler-send-mid-period"} {
-				scs = append(scs, scen{role, n, p, periods[n]})
+				scs = append(scs, scen{role, n, p, periods[n], 0})
+			}
+		}
+	}
+	// a second logon on the same connection after a Logout exchange: the session is then logged on with the NEW interval
+	for _, role := range []rig.Role{rig.Acceptor, rig.Initiator} {
+		for _, pair := range [][2]int{{3, 1}, {1, 2}, {2, 2}} {
+			if role == rig.Initiator && pair[0] != pair[1] {
+				continue
+			}
+			for _, p := range []string{"idle", "send-just-after", "half-period-sends"} {
+				scs = append(scs, scen{role, pair[1], p, periods[pair[1]], pair[0]})
 			}
 		}
 	}
